@@ -189,6 +189,14 @@ let ghost h = ith.index@ as int;
                 // KF1: no carve-out (difflines.rs: inside `if carve { .. }`)
                 assert(post_deletion_new_numbering(f, line_changes@, origin)); // [Db.post.deletion_new_numbering]
             }
+            if kf2_carve_out(f) {
+                lemma_removed_accounted(f, line_changes@, origin);
+            }
+            // KF2, checked in a scope of its own like KF1, so that neither failing clause hides the other
+            assert(true) by {
+                // KF2: no carve-out (difflines.rs: inside `if kf2_carve_out(f) { .. }`)
+                assert(post_removed_accounted(f, line_changes@, origin)); // [Db.post.surplus_deletions_reported]
+            }
             assert(db_post(f, line_changes@, origin));
         }
     }
